@@ -51,3 +51,22 @@ package blockchain
 //@   loop 2: invariant mono: calls_Test >= old(calls_Test)
 //@   ensures backed: !result ==> (len(e.contractAddressBytes) > 0 && calls_ContainsFunc == old(calls_ContainsFunc) + 1 && !lastContains && calls_Test == old(calls_Test)) || (calls_Test > old(calls_Test) && !lastTest)
 //@   ensures all_wildcards_match: (len(e.contractAddressBytes) == 0 && (forall i int :: 0 <= i && i < len(e.keysMap) ==> len(e.keysMap[i]) == 0)) ==> result
+
+// ---- cached bloom windows never outlive a reorg ------------------------------------------------
+// The cache holds persisted 8192-block bloom windows by block range. Reverting the head may
+// rewrite the window the head lives in (when the revert crosses a window boundary the re-opened
+// window is persisted again with the new chain's blocks), so a successful revert must drop what
+// is cached: otherwise event queries keep using the pre-reorg window and omit events of the new
+// chain (false negatives).
+//@ func (*AggregatedBloomFilterCache).Reset
+//@   trusted
+//@   logged
+//@ extern func github.com/NethermindEth/juno/blockchain/statebackend.StateBackend.RevertHead
+//@   logged as BackendRevertHead
+//@ func (*Blockchain).RevertHead
+//@   props C09
+//@   arith int
+//@   requires b != nil && b.stateBackend != nil && b.cachedFilters != nil
+//@   assigns calls_BackendRevertHead, calls_Reset
+//@   ensures delegated: calls_BackendRevertHead == old(calls_BackendRevertHead) + 1
+//@   ensures cache_dropped: result == nil ==> calls_Reset == old(calls_Reset) + 1
